@@ -109,6 +109,7 @@ type Config struct {
 	Trace     bool          // keep the textual event log
 	PoolDrop  int           // per-mille probability that a pool Put is dropped
 	NoShuffle bool          // keep sorted order for map/sync.Map iteration
+	NoRecord  bool          // do not record the choice tape (long soak runs keep O(1) state)
 }
 
 // Sched is the scheduler of one run.
@@ -122,6 +123,7 @@ type Sched struct {
 	aux     *prng // pool/map/select choices
 	tape    []int
 	tapePos int
+	nextID  int
 	Rec     []int // recorded choices
 	Steps   int
 	dead    bool
@@ -208,7 +210,8 @@ func (s *Sched) Hash() string { return fmt.Sprintf("%016x", s.hash) }
 
 //go:norace
 func (s *Sched) newG(site string, app bool) *G {
-	g := &G{ID: len(s.gs) + 1, Site: site, App: app, release: make(chan struct{}), state: gParked, where: "start"}
+	s.nextID++
+	g := &G{ID: s.nextID, Site: site, App: app, release: make(chan struct{}), state: gParked, where: "start"}
 	g.prio = s.rng.Intn(1 << 20)
 	g.StartStep = s.Steps
 	if s.cur != nil {
@@ -239,7 +242,9 @@ func (s *Sched) choose(n int, gen func() int) int {
 	} else {
 		v = gen()
 	}
-	s.Rec = append(s.Rec, v)
+	if !s.cfg.NoRecord {
+		s.Rec = append(s.Rec, v)
+	}
 	return v
 }
 
@@ -525,6 +530,22 @@ func (s *Sched) Run(done func() bool) Result {
 		if done != nil && done() {
 			return res
 		}
+		if s.cfg.NoRecord && s.Steps%4096 == 0 {
+			// soak runs: forget finished goroutines so that the scheduler itself keeps O(live) state
+			live := s.gs[:0]
+			for _, g := range s.gs {
+				if atomic.LoadInt32(&g.state) != gDone {
+					live = append(live, g)
+				}
+			}
+			for i := len(live); i < len(s.gs); i++ {
+				s.gs[i] = nil
+			}
+			s.gs = live
+			if s.lastG != nil && atomic.LoadInt32(&s.lastG.state) == gDone {
+				s.lastG = nil
+			}
+		}
 		if s.Steps >= s.cfg.MaxSteps {
 			s.Trunc = true
 			res.Truncated = true
@@ -614,7 +635,7 @@ func (s *Sched) Live() (app, lib []*G) {
 }
 
 // NumG returns how many goroutines were created.
-func (s *Sched) NumG() int { return len(s.gs) }
+func (s *Sched) NumG() int { return s.nextID }
 
 // Describe lists live goroutines with their locations.
 //
